@@ -16,7 +16,7 @@ RULE = ("Model-based history generation: Hypothesis draws a rank-planted problem
         "Network part: histories over a LocalNetwork object (see 'net').")
 ASSUMPTIONS = ["min_x(S') is only issued with subsets that numpy confirms to resolve the defect (non-resolving subsets belong to C02/C20)",
                "q_bx is never called (AdjEnvelope documents it as not implemented)"]
-REQUIRED_CLASSES = ["kind=adj", "kind=raw", "singular", "evict", "minx_after_q", "reset_after_q"]
+REQUIRED_CLASSES = ["kind=adj", "kind=raw", "singular", "evict", "minx_after_q", "reset_after_q", "net.refine", "net.alg_switch", "net.update", "net.free"]
 
 
 @st.composite
@@ -225,7 +225,155 @@ def oracle(h, stats):
     return fails
 
 
+# ------------------------------------------------------------------ network level: histories on a LocalNetwork object
+
+NET_QUERIES = ["solve", "resid", "vwv", "defect", "dof", "m0", "counts", "conf_int"]
+
+
+@st.composite
+def net_history(draw):
+    from .. import gen_net
+    free = draw(st.integers(0, 3)) == 0
+    net = draw(gen_net.determined_network(noise=1, free=free, n_max=6))
+    # approximate coordinates a few cm off: 'refine' then really moves the linearisation point
+    if draw(st.booleans()):
+        for p in net["points"]:
+            if p["xy"] == "adj":
+                p["dE"] = draw(st.integers(-30, 30)) / 1000.0
+                p["dN"] = draw(st.integers(-30, 30)) / 1000.0
+            if p["z"] == "adj":
+                p["dH"] = draw(st.integers(-30, 30)) / 1000.0
+    alg = draw(st.sampled_from(ALGS))
+    ops = []
+    for _ in range(draw(st.integers(2, 14))):
+        k = draw(st.sampled_from(["q", "q", "q", "q", "qi", "qi", "qij", "update", "update", "refine", "alg", "lindep"]))
+        if k == "q":
+            ops.append([draw(st.sampled_from(NET_QUERIES))])
+        elif k == "qi":
+            ops.append([draw(st.sampled_from(["stdev_obs", "wcoef_res", "stdev_res", "stdev_unk"])), draw(st.integers(0, 200))])
+        elif k == "qij":
+            ops.append([draw(st.sampled_from(["qxx", "qbb"])), draw(st.integers(0, 200)), draw(st.integers(0, 200))])
+        elif k == "lindep":
+            ops.append(["lindep", draw(st.integers(0, 200))])
+        elif k == "update":
+            ops.append(["update", draw(st.sampled_from(["points", "observations", "residuals", "adjustment"]))])
+        elif k == "refine":
+            ops.append(["refine"])
+        else:
+            ops.append(["alg", draw(st.sampled_from(ALGS))])
+    return {"net": net, "alg": alg, "ops": ops}
+
+
+STATE_OPS = ("update", "refine", "alg")
+
+
+def run_history(gkf_path, alg, lines):
+    from .. import build
+    rc, out, err, crash = drv.run([build.exe("gdrv_nethist"), gkf_path, alg], stdin_text="\n".join(lines) + "\n", timeout=120)
+    if crash is not None:
+        return None, crash
+    import json
+    rows = []
+    for l in out.splitlines():
+        try:
+            rows.append(json.loads(l))
+        except ValueError:
+            rows.append({"fatal": l[:100]})
+    return rows, None
+
+
+def oracle_net(h, stats):
+    import os
+    from .. import gen_net, netmodel as nm, netrun
+    from . import c20
+    net = h["net"]
+    if net.get("free"):
+        if not c20.well_posed_free(net):
+            stats.label("discarded_free_not_well_posed")
+            return []
+    elif not gen_net.is_determined(net):
+        stats.label("discarded_not_determined")
+        return []
+    fails = []
+    with netrun.TmpDir() as d:
+        path = os.path.join(d, "n.gkf")
+        with open(path, "w", encoding="utf-8") as f:
+            f.write(nm.gkf_text(net))
+        # sizes first (indexes of the queries are reduced modulo them)
+        rows, crash = run_history(path, h["alg"], ["counts"])
+        if crash is not None:
+            return ["net.crash: %s %s" % (crash["kind"], crash["frame"])]
+        if len(rows) < 2 or "v" not in rows[1]:
+            stats.label("net.setup_refused")
+            return []
+        N, M, _ = rows[1]["v"]
+        if N == 0 or M == 0:
+            return []
+
+        def line(op):
+            if op[0] in ("qxx",):
+                return "qxx %d %d" % (op[1] % N + 1, op[2] % N + 1)
+            if op[0] == "qbb":
+                return "qbb %d %d" % (op[1] % M + 1, op[2] % M + 1)
+            if op[0] in ("stdev_obs", "wcoef_res", "stdev_res"):
+                return "%s %d" % (op[0], op[1] % M + 1)
+            if op[0] in ("stdev_unk", "lindep"):
+                return "%s %d" % (op[0], op[1] % N + 1)
+            return " ".join(str(t) for t in op)
+        lines = [line(op) for op in h["ops"]]
+        full, crash = run_history(path, h["alg"], lines)
+        if crash is not None:
+            return ["net.crash: %s %s (history %s)" % (crash["kind"], crash["frame"], lines)]
+        full = full[1:]
+        if len(full) != len(lines):
+            return ["net.short: %d answers for %d commands: %s" % (len(full), len(lines), str(full[-1:])[:200])]
+        kinds = set(op[0] for op in h["ops"])
+        if "refine" in kinds:
+            stats.label("net.refine")
+        if "alg" in kinds:
+            stats.label("net.alg_switch")
+        if "update" in kinds:
+            stats.label("net.update")
+        if net.get("free"):
+            stats.label("net.free")
+        # every query against a fresh object that performs only the state-changing calls made before it
+        nq = 0
+        for k, op in enumerate(h["ops"]):
+            if op[0] in STATE_OPS:
+                continue
+            nq += 1
+            if nq > 8:
+                break
+            prefix = [lines[j] for j in range(k) if h["ops"][j][0] in STATE_OPS]
+            ref, crash = run_history(path, h["alg"], prefix + [lines[k]])
+            if crash is not None:
+                fails.append("net.fresh.crash: %s %s" % (crash["kind"], crash["frame"]))
+                break
+            a, b = full[k], ref[-1]
+            if ("v" in a) != ("v" in b):
+                fails.append("net.history.%s: after the history %s the answer is %s, a fresh object says %s" % (op[0], lines[:k], str(a)[:120], str(b)[:120]))
+                break
+            if "v" not in a:
+                if a.get("exc") != b.get("exc"):
+                    fails.append("net.history.%s.exception: %s vs %s" % (op[0], a, b))
+                continue
+            va, vb = np.atleast_1d(np.array(a["v"], float)), np.atleast_1d(np.array(b["v"], float))
+            if va.shape != vb.shape:
+                fails.append("net.history.%s.shape: %s vs %s" % (op[0], va.shape, vb.shape))
+                break
+            scale = max(1.0, float(np.max(np.abs(vb))) if vb.size else 1.0)
+            err = float(np.max(np.abs(va - vb))) if va.size else 0.0
+            stats.ratio("net.history", err / (1e-7 * scale))
+            if not np.all(np.isfinite(va)) or err > 1e-7 * scale:
+                fails.append("net.history.%s: after %s the answer differs from a fresh object's by %.3g (scale %.3g)" % (op[0], lines[:k], err, scale))
+                break
+    return fails
+
+
 PARTS = [
     Part("history", strategy=history, oracle=oracle, nontrivial=is_nontrivial,
          n={"quick": 6000, "thorough": 40000}),
+    Part("net", strategy=net_history, oracle=oracle_net, n={"quick": 800, "thorough": 8000},
+         nontrivial=lambda h: any(op[0] in STATE_OPS for op in h["ops"]),
+         sample=lambda h: {"alg": h["alg"], "ops": h["ops"], "free": bool(h["net"].get("free"))}),
 ]
